@@ -174,7 +174,9 @@ def tlc_must_run(res, what):
     if res.timeout:
         raise MachineryFailure('%s: TLC timed out after %.0fs' % (what, res.wall))
     if res.rc not in (0, 12, 13):
-        tail = '\n'.join(res.out.splitlines()[-40:])
+        lines = [l for l in res.out.splitlines() if not re.match(r'^\d+\. Line', l)]
+        errs = [i for i, l in enumerate(lines) if l.startswith('Error:') and 'Invariant' not in l and 'behavior up to' not in l]
+        tail = '\n'.join(lines[errs[0]:errs[0] + 25] if errs else lines[-25:])
         raise MachineryFailure('%s: TLC exited %s\n%s' % (what, res.rc, tail))
 
 
